@@ -12,7 +12,7 @@ repl = {}
 pat = re.compile(r'^(\s*)([A-Za-z_][\w\.\(\)\*]*)\.(RUnlock|Unlock)\(\)\s*$')
 lockpat = re.compile(r'^(\s*)([A-Za-z_][\w\.\(\)\*]*)\.(RLock|Lock)\(\)\s*$')
 for rel in ["go/appencryption/key_cache.go", "go/appencryption/session_cache.go", "go/appencryption/envelope.go", "go/appencryption/session.go"]:
-    src = os.path.join("/repo", rel)
+    src = os.path.join(os.environ.get("VERIF_REPO", "/repo"), rel)
     lines = open(src).read().split("\n")
     res, n = [], 0
     for i, line in enumerate(lines, 1):
